@@ -22,6 +22,7 @@ RULE = (
     "and above S_wc. Non-trivial = a valid case with a fractional exponent or a non-zero residual and at "
     "least one record whose normalised saturation is < 0 or > 1 for some phase, or any invalid / two-phase "
     "case. Distinct = hash of the whole case record."
+    " One valid case in four runs under np.errstate(invalid='raise', divide='raise')."
 )
 ASSUMPTIONS = [
     "relative permeability of a phase is a function of that phase's saturation only (documented Brooks-Corey "
@@ -226,7 +227,12 @@ def check_case(case) -> Result:
         res.labels["field_order"] = "".join("owg"[i] for i in case.get("field_order", (0, 1, 2)))
         res.labels["rec_dtype"] = case.get("rec_dtype", "f8")
         if kind == "valid":
-            kr = lib("relative_permeabilities", relative_permeabilities, recs, params)
+            # one valid case in four runs with NumPy's floating-point errors escalated (np.errstate(invalid, divide =
+            # "raise"), as numerical codes do while debugging): admissible inputs must not need an invalid operation
+            strict = len(case["sats"]) % 4 == 1
+            res.labels["errstate"] = "invalid/divide raise" if strict else "default"
+            with np.errstate(invalid="raise" if strict else "warn", divide="raise" if strict else "warn"):
+                kr = lib("relative_permeabilities", relative_permeabilities, recs, params)
             if getattr(kr, "shape", None) != (len(case["sats"]),):
                 res.bad("C14/shape", f"result shape {getattr(kr, 'shape', None)} for {len(case['sats'])} records")
                 return res
@@ -261,7 +267,10 @@ def check_case(case) -> Result:
             what = f"parameter {case.get('bad_field')}={p.get(case.get('bad_field'))!r}" if kind == "invalid-param" else "saturation record not summing to 1"
             res.bad("C14/rejects-invalid", f"{what} accepted; returned {np.asarray(out)[:2]}")
     elif kind == "twophase":
-        df = lib("relative_permeabilities_twophase", relative_permeabilities_twophase, params, case["Sw"])
+        strict = int(round(case["Sw"] * 1000)) % 4 == 1
+        res.labels["errstate"] = "invalid/divide raise" if strict else "default"
+        with np.errstate(invalid="raise" if strict else "warn", divide="raise" if strict else "warn"):
+            df = lib("relative_permeabilities_twophase", relative_permeabilities_twophase, params, case["Sw"])
         cols = set(getattr(df, "columns", []))
         need = {"So", "Sw", "Sg", "kro", "krw", "krg"}
         if not need <= cols:
